@@ -269,6 +269,21 @@ Theorem C01_varint_bits_reader_roundtrip : forall n r, all_bytes r = true -> vde
 Proof. exact vdec_bits_venc. Qed.
 Print Assumptions C01_varint_bits_reader_roundtrip.
 
+(* composed: zig-zag by shifts and xor on a W-bit word, then the mask/or/shift varint loop, emits enc_int for every varint-encoded
+   signed primitive, every machine width W >= the primitive's width (C++ widens int16 to 32 bits; Python, MATLAB use 64) and every
+   in-range value *)
+From YV Require Import Proofs.BitsWriteProofs.
+Theorem C01_signed_write_bits_cpp : forall p w W z,
+  int_width p = Some (true, w) -> 8 < w -> w <= W -> int_ok p z = true ->
+  cpp_venc (Z.to_N (cpp_zz_enc (Z.of_N W) z)) = enc_int p z.
+Proof. exact cpp_signed_write_bits. Qed.
+Print Assumptions C01_signed_write_bits_cpp.
+Theorem C01_signed_write_bits_py : forall p w z,
+  int_width p = Some (true, w) -> 8 < w -> w <= 64 -> int_ok p z = true ->
+  py_venc (Z.to_N (py_zz_enc z)) = enc_int p z.
+Proof. exact py_signed_write_bits. Qed.
+Print Assumptions C01_signed_write_bits_py.
+
 (* non-vacuity *)
 Example C01_hyp_sat :
   steps_ok [SValue (TRec [TPrim PString; TOpt (TPrim PInt32)]); SStream (TUnion true [TPrim PFloat32; TVec (TPrim PUint16)])]
